@@ -19,6 +19,7 @@ pub uninterp spec fn entry_is_dir(p: Seq<char>) -> bool;
 pub struct Metadata { pub ghost p: Seq<char> }
 impl Metadata { #[verifier::external_body] pub fn is_dir(&self) -> (r: bool) ensures r == entry_is_dir(self.p) { unimplemented!() } }
 impl DirEntry { #[verifier::external_body] pub fn metadata(&self) -> (r: Result<Metadata, std::io::Error>) ensures r matches Ok(m) ==> m.p == self.p { unimplemented!() } }
+//!assumed src/app/out.rs calculate_dir_size_in_mb sha=b59ac3bbfa7e2926
 // ASSUMED (repo function, floating point; reads only): the size of everything below the directory
 #[verifier::external_body] fn calculate_dir_size_in_mb(p: &path::Path) -> (r: Result<f64, MonorailError>) { unimplemented!() }
 
